@@ -349,3 +349,13 @@ func (c *Check) Violations() int {
 	defer c.mu.Unlock()
 	return len(c.violations)
 }
+
+// IsKnown reports whether key is a listed known finding of this property.
+func (c *Check) IsKnown(key string) bool {
+	for _, k := range c.known {
+		if k.Key == key {
+			return true
+		}
+	}
+	return false
+}
